@@ -104,7 +104,7 @@ type storeObs struct {
 	NI     int64      `json:"ni"`
 	MinS   int64      `json:"mins"`
 	MinI   int64      `json:"mini"`
-	PHead  int64      `json:"phead"`  // preliminary head height or -1
+	PHead  headObs    `json:"phead"`  // preliminary head stored in the database (h = 0: none)
 	Digest string     `json:"digest"` // digest of the whole database
 }
 
@@ -117,7 +117,7 @@ func hobs(h *types.Header) headObs {
 
 func emptyObs() storeObs {
 	return storeObs{Head: hobs(nil), DHead: hobs(nil), LiveS: "none", LiveI: "none", SVR: []verRoot{}, IVR: []verRoot{}, Canon: []canonEnt{},
-		SAll: []int64{}, IAll: []int64{}, PHead: -1}
+		SAll: []int64{}, IAll: []int64{}, PHead: hobs(nil)}
 }
 
 func observeFull(n *sim.Node, lo, hi int64) storeObs {
@@ -171,9 +171,7 @@ func observe(n *sim.Node, lo, hi int64) storeObs {
 	if len(ia) > 0 {
 		o.MinI = ia[0]
 	}
-	if n.Chain.PreliminaryHead != nil {
-		o.PHead = int64(n.Chain.PreliminaryHead.Height())
-	}
+	o.PHead = hobs(n.Chain.ReadPreliminaryHead())
 	o.Digest = sim.DBDigest(n.DB)
 	return o
 }
@@ -243,9 +241,10 @@ func ledgerDigest(n *sim.Node) (res string) {
 // running a case
 
 type step struct {
-	What string // "Add" or "ResetTo"
+	What string // "Add", "ResetTo" or "FastSync"
 	B    *blk
 	To   uint64
+	Sc   *scenario // FastSync only
 }
 
 type runner struct {
@@ -290,6 +289,13 @@ func doStep(n *sim.Node, s step) error {
 	case "ResetTo":
 		_, err := n.Chain.ResetTo(s.To)
 		return err
+	case "FastSync":
+		err := fastSync(n, s.Sc)
+		if h, ok := n.DB.(*sim.Handle); ok && h.C.Dead() {
+			// the process died inside a write of its background cleaner
+			panic(sim.ErrCrash{Index: h.C.CrashAt})
+		}
+		return err
 	}
 	panic("unknown step " + s.What)
 }
@@ -303,6 +309,25 @@ func errStr(err error) string {
 		s = s[:160]
 	}
 	return s
+}
+
+// bulk writes (copy / deletion of a whole tree database, key by key) are logged once per run of equal kind
+var bulkKinds = map[string]bool{"PCopy": true, "DropOld": true, "SnapPut": true}
+
+func (r *runner) emitWrites(ph string, log []sim.WriteRec) {
+	for i := 0; i < len(log); i++ {
+		x := log[i]
+		m := wrec(ph, x)
+		rep := 1
+		if bulkKinds[x.K] {
+			for i+1 < len(log) && log[i+1].K == x.K {
+				i++
+				rep++
+			}
+		}
+		m["rep"] = rep
+		r.emit(m)
+	}
 }
 
 func wrec(ph string, x sim.WriteRec) tr.M {
@@ -356,6 +381,11 @@ func (sc *scenario) sync(n *sim.Node) ([]step, bool) {
 	var res []step
 	hh := n.Chain.Head.Height()
 	id := hx(n.Chain.Head.Hash().Bytes())
+	if sc.fs != nil && sc.onTarget(n) && hh < sc.fs.H {
+		// fast sync not finished: resume it, then insert the following blocks normally
+		res = append(res, step{What: "FastSync", B: sc.Target.b[sc.fs.H], Sc: sc})
+		hh = sc.fs.H
+	}
 	if !sc.onTarget(n) {
 		// on the abandoned branch above the fork point: roll back to the common ancestor
 		if sc.Old.b[hh] != nil && sc.Old.b[hh].Id == id && sc.ForkAt > 0 && hh > sc.ForkAt {
@@ -378,6 +408,9 @@ func (sc *scenario) probe(n *sim.Node) []step {
 		hh = sc.ForkAt
 	}
 	var res []step
+	if sc.fs != nil && hh < sc.fs.H {
+		return res // the versions below the snapshot height do not exist after a fast sync
+	}
 	if hh < sc.End && hh >= 1 && sc.End-hh <= uint64(state.MaxSavedStatesCount-1) {
 		res = append(res, step{What: "ResetTo", To: hh})
 		for h := hh + 1; h <= sc.End; h++ {
@@ -414,7 +447,7 @@ func (r *runner) runCase(c *caseT) {
 	lo, hi := sc.window()
 	db := sim.NewCrashDB(sim.CopyDB(sc.preDB))
 	db.HeadId = r.headId
-	n := r.w.Boot(kTest, db, sc.store)
+	n := r.w.Boot(kTest, db.NewHandle(), sc.store)
 	r.boots++
 	if n.BootErr != nil {
 		panic(n.BootErr)
@@ -458,9 +491,7 @@ func (r *runner) runCase(c *caseT) {
 		}
 	})
 	log := db.Disarm()
-	for _, x := range log {
-		r.emit(wrec("op", x))
-	}
+	r.emitWrites("op", log)
 	unresolved := false
 	switch {
 	case crashed:
@@ -502,15 +533,15 @@ func (r *runner) runCase(c *caseT) {
 						panic(x)
 					}
 				}()
-				crashed2 = safe(func() { n2 = r.w.Boot(kTest, db, sc.store) })
+				crashed2 = safe(func() { n2 = r.w.Boot(kTest, db.NewHandle(), sc.store) })
 			}()
 			db.Budget = 0
 			r.boots++
 			if hang {
-				for i, x := range db.Disarm() {
-					if i < 200 {
-						r.emit(wrec("rec", x))
-					}
+				if hl := db.Disarm(); len(hl) < 200 {
+					r.emitWrites("rec", hl)
+				} else {
+					r.emitWrites("rec", hl[:200])
 				}
 				r.emit(tr.M{"ev": "Restart", "ok": false, "err": "start-up sequence does not terminate", "pre": before, "obs": emptyObs()})
 				r.emit(tr.M{"ev": "Final", "reached": false, "why": "boot hangs", "obs": emptyObs(), "ledger": ""})
@@ -519,9 +550,7 @@ func (r *runner) runCase(c *caseT) {
 				return
 			}
 			log2 := db.Disarm()
-			for _, x := range log2 {
-				r.emit(wrec("rec", x))
-			}
+			r.emitWrites("rec", log2)
 			if crashed2 {
 				r.emit(tr.M{"ev": "Crash", "ph": "rec", "i": len(log2), "clean": false, "lost": lostKind(db)})
 				continue
@@ -578,9 +607,7 @@ func (r *runner) runCase(c *caseT) {
 			}
 		})
 		log3 := db.Disarm()
-		for _, x := range log3 {
-			r.emit(wrec("cont", x))
-		}
+		r.emitWrites("cont", log3)
 		for _, a := range applied {
 			r.emit(a)
 		}
